@@ -10,3 +10,6 @@ func composeMerge(srs []SR) SR      { return compose.VerifC08Merge(srs) }
 // interface path of unpackStreamReader (toAnyStreamReader + per-chunk type assertion) and withKey
 func composeViaAny(sr SR) SR { return compose.VerifC08ViaAny(sr) }
 func composeViaKey(sr SR) SR { return compose.VerifC08ViaKey(sr, "k") }
+
+// ... and through a stream of any in which the zero value travels as a nil chunk
+func composeViaNilAny(sr SR) SR { return compose.VerifC08ViaNilAny(sr) }
